@@ -489,8 +489,8 @@ package mast
 //@ func (*mastNode).seekIter
 //@ tags C01 C10 C12
 //@ modifies W G.loads Box.Bytes@fresh Arr.Any@fresh Node.*@fresh mastNode.*@fresh
-//@ requires nn (and (> node 0) (> m 0) (not (= f 0)) (>= idx 0))
-//@ requires shape (Shape H node)
+//@ requires nn [T3] (and (> node 0) (> m 0) (not (= f 0)) (>= idx 0))
+//@ requires shape [T3] (Shape H node)
 //@ requires closure [T3] (AllOK H)
 //@ ensures closure [T3] (AllOK H)
 //@ loop 1 invariant idx (and (<= 0 i) (Shape H node))
@@ -1059,3 +1059,161 @@ package mast
 //@ ensures empty [C05 C19] (=> (and (= err anil) (= (dLen (bs.val buf)) 0)) (and (= (Box.BS H body) (Box.BS H0 body)) (= (bs.val result0) (drop (bs.val buf) (uvLen (bs.val buf))))))
 //@ ensures body [C05 C19] (=> (and (= err anil) (not (= (dLen (bs.val buf)) 0))) (and (> (dLen (bs.val buf)) 0) (<= (dLen (bs.val buf)) (blen (drop (bs.val buf) (uvLen (bs.val buf))))) (= (Box.BS H body) (mkBS false (dBody (bs.val buf)))) (= (bs.val result0) (dRest (bs.val buf)))))
 //@ ensures frame [C05 C19] (forall ((b Int)) (! (=> (not (= b body)) (= (Box.BS H b) (Box.BS H0 b))) :pattern ((Box.BS H b))))
+
+// ---------------------------------------------------------------------------------------
+// Persisting (C03, C08, C13, C15)
+//   blake b / b64url b : BLAKE2b-256 and unpadded URL-safe base64 (A2, uninterpreted)
+//   nameHash b         : the content-addressed name of bytes b
+//   urlPrefix p        : what Persist p reports as NodeURLPrefix (A3: a function of the store)
+//   ckey p name        : the node-cache key "<prefix>/<name>" of name in store p
+//   durable[key]       : ghost: the bytes of that cache key have been stored successfully
+//@ assumption A2-hash: blake2b.Sum256 and base64.RawURLEncoding.EncodeToString are pure functions (blake, b64url); BLAKE2b is collision-free
+//@ assumption A3-store: Persist.NodeURLPrefix is a function of the store; a NodeCache only ever contains keys that were Added (Contains/Get imply durable for the key)
+//@ ghost G.durable (Array Bytes Bool)
+//@ smt (declare-fun blake (Bytes) Bytes)
+//@ smt (declare-fun b64url (Bytes) Bytes)
+//@ smt (define-fun nameHash ((b Bytes)) Bytes (b64url (blake b)))
+//@ smt (declare-fun urlPrefix (Any) Bytes)
+//@ smt (define-fun strAny ((s Bytes)) Any (mkAny tid.string (box_Bytes s)))
+//@ smt (define-fun ckey ((p Any) (name Bytes)) Bytes (sprintf2 "%s/%s" (strAny (urlPrefix p)) (strAny name)))
+//@ smt (define-fun isDurable ((h Heap) (k Bytes)) Bool (select (G.durable h) k))
+
+//@ abstract blake2b.Sum256 (data) -> (r)
+//@ pure
+//@ ensures def (and (= r (blake (bs.val data))) (= (blen r) 32))
+
+//@ abstract (*base64.Encoding).EncodeToString (enc src) -> (r)
+//@ pure
+//@ ensures raw (=> (= enc (G.base64.RawURLEncoding H)) (= r (b64url (bs.val src))))
+
+//@ abstract Persist.NodeURLPrefix (p) -> (r)
+//@ pure
+//@ ensures def (= r (urlPrefix p))
+
+//@ abstract Persist.Store (p ctx name b) -> (err)
+//@ modifies G.durable
+//@ ensures ok (=> (= err anil) (isDurable H (ckey p name)))
+//@ ensures mono (forall ((k Bytes)) (! (=> (isDurable H0 k) (isDurable H k)) :pattern ((isDurable H k))))
+//@ ensures frame (forall ((k Bytes)) (! (=> (not (= k (ckey p name))) (= (isDurable H k) (isDurable H0 k))) :pattern ((isDurable H k))))
+
+//@ abstract NodeCache.Contains (c key) -> (r)
+//@ pure
+//@ ensures sound (=> r (isDurable H (unbox_Bytes (a.val key))))
+
+//@ abstract NodeCache.Add (c key value) -> ()
+//@ pure
+//@ requires durable [C03 C11] (and (= (a.tid key) tid.string) (isDurable H (unbox_Bytes (a.val key))))
+
+//@ abstract chan.send (ch) -> ()
+//@ pure
+
+//@ abstract param:(*mastNode).store.marshal (x) -> (b err)
+//@ pure
+//@ ensures healthy (=> healthy (= err anil))
+
+//@ func (*mastNode).store$1
+//@ tags C03 C08 C11
+//@ modifies W G.durable Box.Any Arr.Any@fresh
+//@ requires boxes (and (distinct err persist cache) (distinct hash cacheKey) (<= err W) (<= persist W) (<= hash W) (<= encoded W) (<= cache W) (<= cacheKey W) (<= node W) (not (isNil (Box.Any H persist))))
+//@ requires name [C03 C08] (= (Box.Bytes H hash) (nameHash (bs.val (Box.BS H encoded))))
+//@ requires key [C03] (= (Box.Bytes H cacheKey) (ckey (Box.Any H persist) (Box.Bytes H hash)))
+//@ ensures stored [C03] (=> (= result anil) (isDurable H (ckey (Box.Any H0 persist) (Box.Bytes H0 hash))))
+//@ ensures mono [C03] (forall ((k Bytes)) (! (=> (isDurable H0 k) (isDurable H k)) :pattern ((isDurable H k))))
+
+// SharedClean: a shared node is clean and has a source name (the other half of DirtyPrivate)
+//@ smt (define-fun SharedClean ((h Heap)) Bool (forall ((r Int)) (! (=> (mastNode.shared h r) (and (not (mastNode.dirty h r)) (not (= (mastNode.source h r) 0)))) :pattern ((mastNode.shared h r)))))
+
+//@ func (*mastNode).store
+//@ tags C02 C03 C08 C11 C13 C15
+//@ modifies W G.durable Arr.Any Node.*@fresh mastNode.dirty mastNode.shared mastNode.source mastNode.expected@fresh Box.Any@fresh Box.Int@fresh Box.Bytes@fresh Box.BS@fresh Box.S_mastNode@fresh
+//@ uses bytes
+//@ requires nn (and (not (isNil persist)) (not (= marshal 0)) (> storeQ 0))
+//@ requires shape [T3] (and (> node 0) (Shape H node))
+//@ requires sharedclean [C02 C11 C13] (SharedClean H)
+//@ requires closure [T3] (and (AllOK H) (forall ((r Int)) (! (=> (mastNode.dirty H r) (= (mastNode.source H r) 0)) :pattern ((mastNode.dirty H r)))))
+//@ ensures clean [C13] (=> (and (not (mastNode.dirty H0 node)) (not (= (mastNode.source H0 node) 0))) (and (= err anil) (= result0 (deref.Bytes H0 (mastNode.source H0 node))) (NodesSame H0 H W0) (= (G.durable H) (G.durable H0)) (= (mastNode.dirty H node) (mastNode.dirty H0 node)) (= (mastNode.shared H node) (mastNode.shared H0 node))))
+//@ ensures flags [C02 C05 C08 C11 C13] (=> (and (= err anil) (or (mastNode.dirty H0 node) (= (mastNode.source H0 node) 0))) (and (mastNode.shared H node) (not (mastNode.dirty H node)) (not (= (mastNode.source H node) 0)) (= (deref.Bytes H (mastNode.source H node)) result0)))
+//@ ensures names [T3] (=> (and (= err anil) (or (mastNode.dirty H0 node) (= (mastNode.source H0 node) 0))) (forall ((i Int)) (! (=> (and (<= 0 i) (< i (nlinks H node))) (not (isPtr (LinkAt H node i)))) :pattern ((LinkAt H node i)))))
+//@ ensures sharedclean [C02 C11 C13] (SharedClean H)
+//@ ensures mono [C03] (forall ((k Bytes)) (! (=> (isDurable H0 k) (isDurable H k)) :pattern ((isDurable H k))))
+//@ loop 1 invariant links [C02 C03 C11 C13 C15] (and (<= (- 1) rangeindex) (<= 0 linkCount) (SharedClean H) (forall ((k Bytes)) (! (=> (isDurable H0 k) (isDurable H k)) :pattern ((isDurable H k)))))
+//@ loop 1 invariant t3 [T3] (and (Shape H node) (not (mastNode.shared H node)) (= (mastNode.dirty H node) (mastNode.dirty H0 node)) (= (mastNode.source H node) (mastNode.source H0 node)) (forall ((i Int)) (! (=> (and (<= 0 i) (<= i rangeindex)) (not (isPtr (LinkAt H node i)))) :pattern ((LinkAt H node i)))) (AllOK H) (LinksOK H node) (forall ((r Int)) (! (=> (mastNode.dirty H r) (= (mastNode.source H r) 0)) :pattern ((mastNode.dirty H r)))))
+
+// ---------------------------------------------------------------------------------------
+// flush: the worker pool (C03). Goroutine bodies are verified as sequential functions; the
+// scheduler is not modelled (A5/A6).
+//@ assumption A5: sync.Mutex, sync.WaitGroup, channels and go statements provide the happens-before edges the Go memory model documents
+//@ assumption A6: between close(storeQ) and the return of wg.Wait() every queued closure has run to completion exactly once or was skipped, and one is skipped only after an earlier one returned an error (the schedule quantifier of C03 is assumed, not proved)
+//@ ghost G.waited Bool
+//@ ghost G.held (Array Int Bool)
+
+//@ abstract (*sync.WaitGroup).Add (wg n) -> ()
+//@ pure
+//@ abstract (*sync.WaitGroup).Done (wg) -> ()
+//@ pure
+//@ abstract (*sync.WaitGroup).Wait (wg) -> ()
+//@ modifies G.waited
+//@ ensures waited (G.waited H)
+//@ abstract (*sync.Mutex).Lock (mu) -> ()
+//@ modifies G.held
+//@ requires free [C03 C11] (not (select (G.held H) mu))
+//@ ensures held (and (select (G.held H) mu) (forall ((q Int)) (! (=> (not (= q mu)) (= (select (G.held H) q) (select (G.held H0) q))) :pattern ((select (G.held H) q)))))
+//@ abstract (*sync.Mutex).Unlock (mu) -> ()
+//@ modifies G.held
+//@ requires held [C03 C11] (select (G.held H) mu)
+//@ ensures free (and (not (select (G.held H) mu)) (forall ((q Int)) (! (=> (not (= q mu)) (= (select (G.held H) q) (select (G.held H0) q))) :pattern ((select (G.held H) q)))))
+//@ abstract chan.recv (ch) -> ()
+//@ pure
+//@ abstract chan.close (ch) -> ()
+//@ pure
+//@ abstract go.start (ch) -> ()
+//@ pure
+
+//@ func (*Mast).flush$1$1$1
+//@ tags C03
+//@ pure
+//@ requires nn (> gate 0)
+
+//@ abstract functype:func()_error () -> (err)
+//@ modifies W G.durable Box.Any Arr.Any@fresh
+//@ ensures mono (forall ((k Bytes)) (! (=> (isDurable H0 k) (isDurable H k)) :pattern ((isDurable H k))))
+
+// the worker: runs one queued store unless an earlier one failed; the first error sticks
+//@ func (*Mast).flush$1$1
+//@ tags C03 C11
+//@ modifies W G.durable G.held Box.Any Arr.Any@fresh
+//@ requires boxes (and (> wg 0) (> gate 0) (> seLock 0) (> firstStoreError 0) (> f 0) (not (= (Box.Int H f) 0)) (not (select (G.held H) seLock)))
+//@ ensures sticky [C03] (=> (isErr (Box.Any H0 firstStoreError)) (= (Box.Any H firstStoreError) (Box.Any H0 firstStoreError)))
+//@ ensures unlocked [C03 C11] (not (select (G.held H) seLock))
+//@ ensures mono [C03] (forall ((k Bytes)) (! (=> (isDurable H0 k) (isDurable H k)) :pattern ((isDurable H k))))
+
+//@ func (*Mast).flush$1
+//@ tags C03
+//@ modifies W G.durable G.held Box.Any Box.Int Arr.Any@fresh
+//@ requires boxes (and (> storeQ 0) (> gate 0) (> wg 0) (> seLock 0) (> firstStoreError 0) (not (select (G.held H) seLock)))
+//@ loop 1 invariant unlocked (not (select (G.held H) seLock))
+
+//@ func (*Mast).flush
+//@ tags C03 C12 C13
+//@ modifies W G.loads G.durable G.waited G.held Mast.root Arr.Any Node.*@fresh mastNode.dirty mastNode.shared mastNode.source mastNode.expected@fresh Box.Any@fresh Box.Int@fresh Box.Bytes@fresh Box.BS@fresh Box.S_mastNode@fresh
+//@ requires ok (and (> m 0) (RootOK H m) (=> (isPtr (Mast.root H m)) (Shape H (a.val (Mast.root H m)))))
+//@ requires nolocks (forall ((q Int)) (! (not (select (G.held H) q)) :pattern ((select (G.held H) q))))
+//@ requires sharedclean [C02 C11 C13] (SharedClean H)
+//@ requires closure [T3] (and (AllOK H) (forall ((r Int)) (! (=> (mastNode.dirty H r) (= (mastNode.source H r) 0)) :pattern ((mastNode.dirty H r)))))
+//@ ensures nopersist [C03] (=> (isNil (Mast.persist H0 m)) (and (isErr err) (= (Mast.root H m) (Mast.root H0 m))))
+//@ ensures nilroot [C13] (=> (and (not (isNil (Mast.persist H0 m))) (isNil (Mast.root H0 m))) (and (= err anil) (= result0 "") (= (Mast.root H m) (Mast.root H0 m)) (NodesSame H0 H W0) (= (G.durable H) (G.durable H0))))
+//@ ensures ok [C03 C13] (=> (and (= err anil) (not (isNil (Mast.root H0 m)))) (and (= (Mast.root H m) (strAny result0)) (G.waited H)))
+//@ ensures fail [C03 C12] (=> (isErr err) (= (Mast.root H m) (Mast.root H0 m)))
+//@ ensures sharedclean [C02 C11 C13] (SharedClean H)
+//@ loop 1 invariant gate (and (<= 0 i) (= (Mast.root H m) (Mast.root H0 m)))
+
+//@ func (*Mast).MakeRoot
+//@ tags C03 C04 C05 C12 C13
+//@ modifies W G.loads G.durable G.waited G.held Mast.root Arr.Any Node.*@fresh mastNode.dirty mastNode.shared mastNode.source mastNode.expected@fresh Box.Any@fresh Box.Int@fresh Box.Bytes@fresh Box.BS@fresh Box.S_mastNode@fresh Root.*@fresh
+//@ requires ok (and (> m 0) (RootOK H m) (=> (isPtr (Mast.root H m)) (Shape H (a.val (Mast.root H m)))))
+//@ requires nolocks (forall ((q Int)) (! (not (select (G.held H) q)) :pattern ((select (G.held H) q))))
+//@ requires sharedclean [C02 C11 C13] (SharedClean H)
+//@ requires closure [T3] (and (AllOK H) (forall ((r Int)) (! (=> (mastNode.dirty H r) (= (mastNode.source H r) 0)) :pattern ((mastNode.dirty H r)))))
+//@ ensures fields [C04 C05] (=> (= err anil) (and (> result0 W0) (= (Root.Size H result0) (Mast.size H0 m)) (= (Root.Height H result0) (Mast.height H0 m)) (= (Root.BranchFactor H result0) (Mast.branchFactor H0 m)) (= (Root.NodeFormat H result0) (Mast.nodeFormat H0 m))))
+//@ ensures link [C03 C05 C13] (=> (= err anil) (and (=> (isNil (Mast.root H0 m)) (= (Root.Link H result0) 0)) (=> (not (= (Root.Link H result0) 0)) (= (Mast.root H m) (strAny (deref.Bytes H (Root.Link H result0)))))))
+//@ ensures fail [C03 C12] (=> (isErr err) (and (= result0 0) (= (Mast.root H m) (Mast.root H0 m))))
